@@ -11,7 +11,7 @@ NAMESPACES = {"LccModel/Props/C01.lean": "LccModel.C01", "LccModel/Props/C01Grap
 DRIVER = "drivers/Run.lean"
 TRUSTED_BASE = RUN_TRUSTED + ["scheduler-only stream: harness/props/_sched.py drives the real run_tasks with synthetic tasks (drivers/Sched.lean)"]
 ASSUMPTIONS = RUN_ASSUMPTIONS + ["Valid P (Lemmas/Graph.lean): sibling suite names distinct incl. the top level (the top level is NOT checked by the real loader: observation in DESIGN), test names distinct per suite, dependencies resolved and acyclic"]
-RULE = 'sched stream: random dependency DAG × behaviours × threads × gates; run stream: generated project (harness/run/gen.py) × nb_threads 1..8 × gate strategy (off/fifo/lifo/random) forcing completion orders; non-trivial = ≥ 2 tests, ≥ 1 body entered, ≥ 8 events; distinct = hash of the case (project + schedule parameters)'
+RULE = 'sched stream: random dependency DAG × behaviours × threads × gates; run stream: generated project (harness/run/gen.py) × nb_threads 1..8 × gate strategy (off/fifo/lifo/random) forcing completion orders × keyboard interrupt (20 %); non-trivial = ≥ 2 tests, ≥ 1 body entered, ≥ 8 events; distinct = hash of the case (project + schedule parameters)'
 EXPLANATION = 'Deadlock freedom, bounded executions and exactly-once handling are Lean theorems for every well-formed task graph; buildTasks of every valid project is well-formed with exactly one task per scheduled test and one begin/end pair per suite (C01Graph); every real run is replayed on the composed model (scheduler × task behaviours × session × writer) and the report folded by the writer model must equal the real report.'
 
 
@@ -41,7 +41,8 @@ class Run(PropRunStream):
     oracles = ("C01",)
     quick_cases = 270
     quick_seconds = 45
-    corpus = [witness("D1 "), witness("D3 ")] + W2.CONTROLS
+    p_interrupt = 0.2           # interrupted runs are ordinary cases since fix D11
+    corpus = [witness("D1 "), witness("D3 "), witness("D11 ")] + W2.CONTROLS
 
 
 class RunPT(PropRunStream):
@@ -52,6 +53,7 @@ class RunPT(PropRunStream):
     quick_cases = 120
     quick_seconds = 30
     thorough_cases = 4000
+    p_interrupt = 0.15
 
 
 from props._decl import DeclStream, DECL_TRUSTED, DECL_RULE
